@@ -123,6 +123,11 @@ def evalSparse (st : DState) (name : String) (t : List String) (impl : String) :
         | .fault e => renderFault e
       { st := st.note "sp.build.reject", model := model, spec := some (if okSet then "ok *" else "err*") }
   match t with
+  | "ref" :: n :: vals =>
+    -- the generator states the reference content of a loaded / foreign object
+    (match st.sps[name]? with
+     | some o => { st := { st with sps := st.sps.insert name ⟨o.m, num n, vals.map num⟩ }, model := "ok", spec := some "ok" }
+     | none => { st := st, model := "panic:no-object" })
   | "build" :: n :: multi :: vals => buildWith (num n) (multi == "1") (vals.map num) (if multi == "1" then "sp.build.multiset" else "sp.build.set")
   | "from_iter" :: vals =>
     let vals := vals.map num
@@ -214,28 +219,29 @@ where
         res (render rOptNat (s.select m r)) (some (rOptNat (selectSet P r))) (if r ≥ P.length then "sp.select.none" else "sp.select")
       | ["select0", r] => let r := num r
         res (render rOptNat (s.selectZero m r))
-          (if isSet then some (rOptNat (if n ≤ 100000 then selectZeroSet P n r else selectZeroBig P n r)) else none)
+          (if isSet then some (rOptNat (selectZeroBig P n r)) else none)
           (if P.length > 16 then "sp.select0.binsearch" else "sp.select0.scan")
       | ["pred", x] => let x := num x
         res (spFirst m s (s.predecessor m x)) (some (rOptPair (predSet P x))) "sp.pred"
       | ["succ", x] => let x := num x
         res (spFirst m s (s.successor m x)) (some (rOptPair (succSet P x))) "sp.succ"
-      | ["ser"] => res (rWords (sparseC.ser s)) none "sp.ser"
+      | ["doc"] | ["ser"] => res (rWords (sparseC.ser s)) none "sp.ser"
       | "it" :: rest =>
         let (pre, calls) := splitColon rest
         let one := fun (it0 : Outcome SpOneIter) (ref : List (Nat × Nat)) (r : String) =>
           res (iterRun rItemPair (SpOneIter.nextQ m s) (some (SpOneIter.nextBackQ m s)) SpOneIter.remaining it0 calls)
             (some (dequeRun pairStr ref calls)) r
-        let zero := fun (it0 : Outcome SpZeroIter) (ref : List (Nat × Nat)) (r : String) =>
+        let small := n ≤ 200000
+        let zero := fun (it0 : Outcome SpZeroIter) (ref : Unit → List (Nat × Nat)) (r : String) =>
           res (iterRun rItemPair (SpZeroIter.nextQ m s) none SpZeroIter.remaining it0 calls)
-            (if isSet then some (dequeRun pairStr ref calls) else none) r
+            (if isSet && small then some (dequeRun pairStr (ref ()) calls) else none) r
         (match pre with
          | ["bits"] => res (iterRun rItemBool (SpIter.nextQ m s) (some (SpIter.nextBackQ m s)) SpIter.remaining (s.iter m) calls)
-             (some (dequeRun (fun x => s!"s{rBool01 x}") (distinctBits n P) calls)) (if isSet then "sp.it.bits" else "sp.it.bits.multiset")
+             (if small then some (dequeRun (fun x => s!"s{rBool01 x}") (distinctBits n P) calls) else none) (if isSet then "sp.it.bits" else "sp.it.bits.multiset")
          | ["one"] => one (.ok (SpOneIter.full s)) (spPairs P) "sp.it.one"
-         | ["zero"] => zero (s.zeroIter m) (zeroPairs n P) "sp.it.zero"
+         | ["zero"] => zero (s.zeroIter m) (fun _ => zeroPairs n P) "sp.it.zero"
          | ["sel", r] => one (s.selectIter m (num r)) ((spPairs P).drop (num r)) "sp.it.sel"
-         | ["sel0", r] => zero (s.selectZeroIter m (num r)) ((zeroPairs n P).drop (num r)) "sp.it.sel0"
+         | ["sel0", r] => zero (s.selectZeroIter m (num r)) (fun _ => (zeroPairs n P).drop (num r)) "sp.it.sel0"
          | ["pred", x] =>
            let k := match predSet P (num x) with | some (r, _) => r | none => P.length
            one (s.predecessor m (num x)) ((spPairs P).drop k) "sp.it.pred"
